@@ -24,7 +24,7 @@ var (
 	c02VerifyHit int
 )
 
-//verif:stub github.com/google/certificate-transparency-go/x509.ParseCertificate files=cert_checker.go
+//verif:stub github.com/google/certificate-transparency-go/x509.ParseCertificate files=*
 func c02ParseCertificate(b []byte) (*x509.Certificate, error) {
 	i := int(b[0])
 	return c02Certs[i], c02ParseErr[i]
